@@ -487,5 +487,8 @@ fn main() {
     for p in parts {
         merge(&mut rep, p);
     }
+    if rep.samples.is_empty() && !work.is_empty() {
+        rep.sample(json!({"fallback": "first scheduled case", "unit": units[work[0].0].label, "path": work[0].1}));
+    }
     rep.write(&args.out());
 }
